@@ -11,7 +11,8 @@ import PcbV.Gen.TextModes
   devices/devicebase.py:SCRNFile.write (master file: line break before a string that does not fit),
   of devices/formatter.py:Formatter.format for `PRINT A$` / `PRINT A$;`, of Implementation._handle_error
   (what an error message does to the screen) and of display.py:Display.screen/set_width/cls_ as far as
-  they reset the text screen (VGA adapter, SCREEN 0/1/2/7/8/9, WIDTH 40/80, no VIEW, bottom bar off).
+  they reset the text screen (VGA adapter, SCREEN 0/1/2/7/8/9, WIDTH 40/80, no VIEW, bottom bar off; and the
+  Tandy/PCjr adapters, field `tandy`, SCREEN 0/1/2: VIEW PRINT up to row 25, kept over mode changes).
 
   The screen is 25 rows of `width` bytes (attributes, DBCS, pixels and the row `length` field do not
   influence anything modelled here and are left out) plus one `wrap` flag per row; rows and columns are
@@ -50,6 +51,9 @@ structure St where
   top : Nat
   bottom : Nat
   active : Bool
+  /-- `TextScreen._tandytext`: video adapter `tandy` or `pcjr` (a configuration constant; VIEW PRINT may then
+      include row 25 and such a window survives a mode change) -/
+  tandy : Bool
 deriving Repr, DecidableEq
 
 def blankRow (w : Nat) : List Nat := List.replicate w 32
@@ -61,7 +65,11 @@ def blankWraps : List Bool := List.replicate height false
 /-- a new Session with `video='vga'`: SCREEN 0, WIDTH 80, colorswitch 1 -/
 def init : St :=
   { mode := 0, width := 80, colorswitch := true, chars := blankChars 80, wraps := blankWraps,
-    row := 1, col := 1, overflow := false, bottomAllowed := false, top := 1, bottom := 24, active := false }
+    row := 1, col := 1, overflow := false, bottomAllowed := false, top := 1, bottom := 24, active := false,
+    tandy := false }
+
+/-- a new Session with `video='tandy'` or `video='pcjr'` (text mode, WIDTH 80, KEY OFF) -/
+def initTandy : St := { init with tandy := true }
 
 /-! ### list helpers (Python list semantics) -/
 
@@ -306,13 +314,14 @@ def screenFn (s : St) (r c : Int) : R Nat :=
     if s.active ∧ ¬ inRange s.top s.bottom r then .error Gen.E.ifc
     else .ok (cell s.chars r.toNat c.toNat)
 
-/-- `TextScreen.view_print_` (not Tandy: max_line = 24; repaired: setting a scroll area ends the
-    permission to stay on row 25 that `LOCATE 25,c` gave) -/
+/-- `TextScreen.view_print_` with the bottom bar hidden: `max_line` is 25 on Tandy/PCjr, 24 elsewhere
+    (repaired: setting a scroll area ends the permission to stay on row 25 that `LOCATE 25,c` gave) -/
 def viewPrint (s : St) (a : Option (Int × Int)) : R St :=
   match a with
   | none => .ok { s with top := 1, bottom := height - 1, active := false }
   | some (t, b) =>
-    if ¬ (inRange 1 24 t && inRange 1 24 b) then .error Gen.E.ifc
+    let maxLine : Int := if s.tandy then 25 else 24
+    if ¬ (inRange 1 maxLine t && inRange 1 maxLine b) then .error Gen.E.ifc
     else if b < t then .error Gen.E.ifc
     else .ok { s with top := t.toNat, bottom := b.toNat, active := true,
                       overflow := false, bottomAllowed := false, row := t.toNat, col := 1 }
@@ -320,10 +329,13 @@ def viewPrint (s : St) (a : Option (Int × Int)) : R St :=
 /-- `Display.cls_` without argument, no graphics viewport -/
 def cls (s : St) : St := if s.active then clearView s else clearRows (clearAll s) height height
 
-/-- `Display._set_mode` → `TextScreen.init_mode`: new pages, scroll area unset, cursor home -/
+/-- `Display._set_mode` → `TextScreen.init_mode`: new pages, cursor home; `ScrollArea.init_mode`: a scroll area
+    that ends on row 25 (Tandy/PCjr) becomes `VIEW PRINT 1 TO 25`, any other one is unset -/
 def resetMode (s : St) (m w : Nat) : St :=
-  setPos { s with mode := m, width := w, colorswitch := false, chars := blankChars w, wraps := blankWraps,
-                  top := 1, bottom := height - 1, active := false } 1 1 true
+  let keep := decide (s.bottom = height)
+  let s1 : St := { s with mode := m, width := w, colorswitch := false, chars := blankChars w, wraps := blankWraps,
+                          top := 1, bottom := if keep then height else height - 1, active := keep }
+  setPos s1 s1.top 1 true
 
 def lookup2 (l : List (Nat × Nat)) (k : Nat) : Option Nat := (l.find? (fun p => p.1 == k)).map (·.2)
 def lookup3 (l : List (Nat × Nat × Nat)) (k1 k2 : Nat) : Option Nat :=
